@@ -482,6 +482,21 @@ def install(it):
         it.store(a[0], 8, y); it.store(a[1], 8, x)
         return None
     reg('_ZNSt15__exception_ptr13exception_ptr4swapERS0_', eptr_swap)
+    reg('_ZNSt9exceptionD0Ev', lambda it, a: it.free_region(a[0], 'delete (std::exception)'))
+    def init_primary_exception(it, a):
+        # (object, type_info, destructor): std::make_exception_ptr builds an exception object that is never thrown first
+        u = Unwind(a[0], a[1], a[2])
+        u.refs = 0
+        it.live_exceptions[a[0]] = u
+        return a[0]
+    reg('__cxa_init_primary_exception', init_primary_exception)
+    def eptr_from_raw(it, a):
+        it.store(a[0], 8, a[1])
+        if a[1]:
+            u = it.find_exception(a[1])
+            if u is not None: u.refs = getattr(u, 'refs', 0) + 1
+        return None
+    reg(['_ZNSt15__exception_ptr13exception_ptrC1EPv', '_ZNSt15__exception_ptr13exception_ptrC2EPv'], eptr_from_raw)
     def rethrow_exception(it, a):
         # argument passed indirectly (pointer to exception_ptr)
         p = it.load(a[0], 8, K_PTR)
